@@ -381,8 +381,9 @@ Proof.
   - (* function *)
     to_any. rewrite loop_names_fn. destruct (contains loop_func_names name) eqn:Hlf.
     + apply loop_func_ok. intros p0 key acc rest ->.
-      destruct H as (Hwf & _). cbn [view Wf.wf wf_body map ref_key] in Hwf. apply andb_true_iff in Hwf as [Hlo _].
-      unfold loopfunc_ok in Hlo. rewrite Hlf in Hlo. cbn [negb orb] in Hlo. apply contains_In. exact Hlo.
+      destruct H as (Hwf & _). cbn [view Wf.wf wf_body map] in Hwf. apply andb_true_iff in Hwf as [Hlo _].
+      unfold loopfunc_ok in Hlo. rewrite Hlf in Hlo. cbn [negb orb] in Hlo. unfold loop_arg in Hlo.
+      destruct rest; [|destruct acc; discriminate Hlo]. destruct acc; [|discriminate Hlo]. apply contains_In. exact Hlo.
     + kids H. apply Forall_map_view in H. apply call_func_ok. exact H.
   - (* list literal *)
     to_any. kids H. apply Forall_map_view in H. kb vs; [apply eval_list_ok; exact H | apply keeps_fresh_list].
